@@ -1267,7 +1267,14 @@ impl Interpreter {
             }
             VmStepResult::Terminal(vm_result) => {
                 // Terminal state - process and clear active execution state
-                let result = self.process_vm_result(*vm_result)?;
+                let result = match self.process_vm_result(*vm_result) {
+                    Ok(result) => result,
+                    Err(err) => {
+                        // The run is dead: leave its scope, like eval() does on errors
+                        self.abandon_active_execution();
+                        return Err(err);
+                    }
+                };
 
                 // If not suspended (i.e., actually complete), finalize
                 if matches!(result, crate::StepResult::Complete(_)) {
@@ -1342,6 +1349,17 @@ impl Interpreter {
             VmResult::Yield(_) | VmResult::YieldStar(_) => Err(JsError::internal_error(
                 "Bytecode execution cannot yield at top level",
             )),
+        }
+    }
+
+    /// Drop the bookkeeping of a run that ended with an error: restore the
+    /// environment that was current before the run, without finalizing exports.
+    fn abandon_active_execution(&mut self) {
+        let saved_env = self.active_saved_env.take();
+        self.active_module_env = None;
+        self.active_module_path = None;
+        if let Some(saved) = saved_env {
+            self.env = saved;
         }
     }
 
